@@ -5,6 +5,11 @@
 //! structs with distinct `VMMutatorThread` values). The driver is *parked* when it is inside
 //! `block_for_gc` or inside a safe region (between two ops, i.e. while it waits for input).
 //! `stop_all_mutators` sets the stop flag and waits until the driver is parked.
+//!
+//! hx_gc `gc2` / `gcn` add HELPER mutator threads: real OS threads that act as one bound mutator each for the
+//! duration of one op. A helper is a mutator thread like the driver: it is *running* from the moment the driver
+//! registers it until it parks inside `block_for_gc` or enters a safe region (`helper_enter_safe_region`: "running
+//! native code"), and `stop_all_mutators` waits until the driver AND every registered helper are parked.
 use crate::vm::{obj, to_ref, VSlot, VerifVM};
 use mmtk::util::alloc::AllocationError;
 use mmtk::util::opaque_pointer::*;
@@ -114,9 +119,50 @@ struct SyncSt {
     stop_requested: bool,
     driver_parked: bool,
     resumes: usize,
+    /// helper mutator threads (hx_gc `gc2`/`gcn`) that are running: neither inside `block_for_gc` nor in a safe region
+    helpers_running: usize,
 }
-static SYNC: Mutex<SyncSt> = Mutex::new(SyncSt { stop_requested: false, driver_parked: false, resumes: 0 });
+static SYNC: Mutex<SyncSt> =
+    Mutex::new(SyncSt { stop_requested: false, driver_parked: false, resumes: 0, helpers_running: 0 });
 static CV: Condvar = Condvar::new();
+
+thread_local! {
+    /// this OS thread is a helper mutator thread (not the driver)
+    static IS_HELPER: std::cell::Cell<bool> = const { std::cell::Cell::new(false) };
+    /// `block_for_gc` calls made on this OS thread
+    static MY_BLOCKS: std::cell::Cell<usize> = const { std::cell::Cell::new(0) };
+}
+
+/// number of `block_for_gc` calls made on the calling OS thread so far
+pub fn my_blocks() -> usize {
+    MY_BLOCKS.with(|c| c.get())
+}
+
+/// Driver, while it is running (so the world cannot be stopped right now): announce one more running mutator
+/// thread. The helper thread itself calls `helper_thread_init` first thing.
+pub fn helper_register() {
+    let mut s = SYNC.lock().unwrap();
+    s.helpers_running += 1;
+}
+/// Helper thread: mark this OS thread as a helper mutator thread.
+pub fn helper_thread_init() {
+    IS_HELPER.with(|c| c.set(true));
+}
+/// Helper: enter a safe region ("running native code": not inside an MMTk call and not touching the heap). The
+/// world may be stopped while the helper is in there.
+pub fn helper_enter_safe_region() {
+    let mut s = SYNC.lock().unwrap();
+    s.helpers_running -= 1;
+    CV.notify_all();
+}
+/// Helper: leave the safe region; blocks while the world is stopped.
+pub fn helper_leave_safe_region() {
+    let mut s = SYNC.lock().unwrap();
+    while s.stop_requested {
+        s = CV.wait(s).unwrap();
+    }
+    s.helpers_running += 1;
+}
 
 /// Driver: enter a safe region (op boundary; the driver may block on input). GC may stop the world.
 pub fn enter_safe_region() {
@@ -208,7 +254,8 @@ where
     {
         let mut s = SYNC.lock().unwrap();
         s.stop_requested = true;
-        while !s.driver_parked {
+        // every mutator THREAD must be parked: the driver and every registered helper (`gc2`/`gcn`)
+        while !s.driver_parked || s.helpers_running > 0 {
             s = CV.wait(s).unwrap();
         }
     }
@@ -242,15 +289,25 @@ pub fn block_for_gc(tls: VMMutatorThread) {
     let m = tls_to_mut(tls.0).unwrap_or(usize::MAX);
     ev(Kind::VmBlockEnter, m, 0);
     BLOCKS.fetch_add(1, Ordering::SeqCst);
+    MY_BLOCKS.with(|c| c.set(c.get() + 1));
+    let helper = IS_HELPER.with(|c| c.get());
     {
         let mut s = SYNC.lock().unwrap();
         let start = s.resumes;
-        s.driver_parked = true;
+        if helper {
+            s.helpers_running -= 1;
+        } else {
+            s.driver_parked = true;
+        }
         CV.notify_all();
         while s.resumes == start || s.stop_requested {
             s = CV.wait(s).unwrap();
         }
-        s.driver_parked = false;
+        if helper {
+            s.helpers_running += 1;
+        } else {
+            s.driver_parked = false;
+        }
     }
     ev(Kind::VmBlockLeave, m, 0);
 }
